@@ -21,6 +21,8 @@ for n in sorted(os.listdir(os.path.join(V, "seeded"))):
     mm = re.search(r"^%s vs (\w+): (\w+)[^\n]*?# (\S+)" % re.escape(n), log, re.M)
     if mm:
         m["detected_by"] = dict(check=mm.group(1), tier="quick", result=mm.group(2), signature=mm.group(3))
+    if re.search(r"^%s vs \w+: MISSED" % re.escape(n), log, re.M):
+        m["history"] = "missed by the quick check as it was when this change arrived; the check was strengthened (DESIGN.md section 7) and then detected it"
     m["what_was_run"] = ["mk/confirm_mutant.sh (scratch worktree: git apply; make -j16 check -> 16/16 PASS; demo fails with the change, passes without)",
                          "mk/selftest.py %s (git -C /repo apply; python3 check.py %s --tier quick --no-evidence; git -C /repo checkout -- .)" % (n, m["property"])]
     json.dump(m, open(mp, "w"), indent=1)
